@@ -38,6 +38,34 @@ pub fn check_parse(text: &[u32], o: &mut Outcome) {
 pub fn check_print(s: &[u32], o: &mut Outcome) {
     let cs = SmtString::from(s);
     check_printed(s, cs.to_string(), o);
+    // Display into a sink that refuses further text at some point: the error must surface; if fmt reports
+    // success, everything must have been written
+    if s.len() <= 4 && o.fails.is_empty() {
+        use std::fmt::Write as _;
+        struct Bounded {
+            buf: String,
+            cap: usize,
+        }
+        impl std::fmt::Write for Bounded {
+            fn write_str(&mut self, x: &str) -> std::fmt::Result {
+                if self.buf.len() + x.len() > self.cap {
+                    return Err(std::fmt::Error);
+                }
+                self.buf.push_str(x);
+                Ok(())
+            }
+        }
+        let full = cs.to_string();
+        for cap in [0usize, 1, 2, 3, 5, 8, full.len().saturating_sub(1), full.len()] {
+            o.evals += 1;
+            let mut sink = Bounded { buf: String::new(), cap };
+            let r = write!(sink, "{}", cs);
+            if r.is_ok() && sink.buf != full {
+                o.fail("C08/print/sink-error-swallowed", format!("Display of {} into a writer that accepts only {} bytes reports success after writing {:?} (the complete form is {:?})", show_str(s), cap, sink.buf, full));
+                break;
+            }
+        }
+    }
     // the same Display implementation reached through format specifications with a width: the
     // literal may be padded as a whole (spaces outside the quotes are trimmed here) but what is
     // between the quotes must still denote the string. (No precision: truncation on request is
